@@ -66,7 +66,7 @@ def run(ctx):
     kind = H.pick(["tournament", "lexicase"])
     n = 2 + H.draw(7)
     ncases = 1 if (kind == "tournament" and H.draw(2)) else 1 + H.draw(5)
-    alphabet = H.pick([[0, 1], [0, 1, 2], [1, 1, 2, 5], [0.5, 1.5, 2.5, 10.0], [-1, 0, 1]])
+    alphabet = H.pick([[0, 1], [0, 1, 2], [1, 1, 2, 5], [0.5, 1.5, 2.5, 10.0], [-1, 0, 1], [1e-6, 3e-6, 2e-6, 0.0], [1.0, 1.0000001, 1.0000002], [1e9, 1e9 + 1, 1e9 + 2]])
     vectors = [[float(H.pick(alphabet)) for _ in range(ncases)] for _ in range(n)]
     mins = [bool(H.draw(2)) for _ in range(ncases)]
     base = [Individual(i, rep) for i in range(n)]
